@@ -72,6 +72,7 @@ type summary struct {
 	HostOrderCompilations int            `json:"host_order_compilations"`
 	WholeTable            int            `json:"whole_table_compilations"`
 	OtherDomain           int            `json:"compilations_under_PER_LINUX32"`
+	ReusedValues          int            `json:"policy_values_compiled_before_with_another_content"`
 	Jailed                bool           `json:"process_without_a_file_system"`
 	Blocked               bool           `json:"process_whose_seccomp_call_is_answered_ENOSYS"`
 	Accepted              int            `json:"accepted"`
@@ -338,8 +339,23 @@ func modelDrift(c *polcase.Conc, m *polcase.Model, raw []bpf.RawInstruction, ins
 	return ""
 }
 
+// lastValue is the Policy VALUE the previous case compiled (with whatever the library keeps in its unexported fields).
+var lastValue *seccomp.Policy
+var runCount int
+
 func runCase(h *polcase.Header, idx int, cs *polcase.Case, c *polcase.Conc, rng *rand.Rand, expand int, doDrift bool) {
 	pol := c.Build(&cs.Pol)
+	if lastValue != nil && runCount%2 == 1 && c.ArchVia != "default" {
+		// history of a VALUE: the caller keeps one Policy variable, has compiled it holding the previous case's policy, and now
+		// rewrites its exported fields (as unpacking a configuration into it again does). What it compiles to is what it holds now.
+		built := pol
+		pol = *lastValue
+		pol.DefaultAction, pol.Syscalls = built.DefaultAction, built.Syscalls
+		c.SetArch(&pol)
+		sum.ReusedValues++
+	}
+	runCount++
+	defer func() { v := pol; lastValue = &v }()
 	var order binary.ByteOrder = binary.BigEndian
 	if c.LE {
 		order = binary.LittleEndian
